@@ -3,6 +3,7 @@ import MemcVerif.Model.Policy
 import MemcVerif.Model.Server
 import MemcVerif.Model.Conc
 import MemcVerif.Model.PolConc
+import MemcVerif.Model.Timed
 /-!
 # Line-protocol driver: runs the executable model on the operations the harness ran on the real code.
 One input line, one output line.
@@ -167,6 +168,24 @@ def pgrants (s : PSys) (now : Nat) : List String → Nat → PSys × Option Stri
       | none => (s, some s!"bad token {tok}")
     | _ => (s, some s!"bad token {tok}")
 
+/-- `tcase`: arrivals `t:hex` on a fresh connection of a fresh store under the receive timeout `rx`, then the instant at which
+    the client looks: (connection closed by then?, everything written) -/
+def tcaseRun (limit rx now : Nat) : TConn → MemStore → Bytes → List String → Option (Bool × Bytes)
+  | _, _, _, [] => none
+  | tc, _, acc, [fin] =>
+    match fin.toNat? with
+    | some tf => some (tc.conn.closed || decide (tc.deadline ≤ tf), acc)
+    | none => none
+  | tc, s, acc, tok :: rest =>
+    match tok.splitOn ":" with
+    | [t, hx] =>
+      match t.toNat?, fromHex hx with
+      | some tv, some b =>
+        let r := tfeed memOps limit rx now tv tc s b
+        tcaseRun limit rx now r.1 r.2.1 (acc ++ r.2.2) rest
+      | _, _ => none
+    | _ => none
+
 def step (d : DState) (line : String) : DState × String :=
   match line.trimAscii.toString.splitOn " " with
   | ["new", n] =>
@@ -201,6 +220,13 @@ def step (d : DState) (line : String) : DState × String :=
   | ["fin"] =>
     ({ d with acc := [] }, s!"out {toHexD d.acc} {if d.conn.closed then "closed" else "open"}")
   | ["conn"] => ({ d with conn := Conn.init, acc := [] }, "ok")
+  | "tcase" :: rx :: now :: rest =>
+    match rx.toNat?, now.toNat? with
+    | some rxv, some nowv =>
+      match tcaseRun d.limit rxv nowv (TConn.start 0 rxv) MemStore.init [] rest with
+      | some (closed, out) => (d, s!"out {toHexD out} {if closed then "closed" else "open"}")
+      | none => (d, "bad-op")
+    | _, _ => (d, "bad-op")
   | ["obs", hx] =>
     -- a second connection: the bytes, then half-close
     match fromHex hx with
